@@ -599,9 +599,42 @@ def ob_missing_return():
     return [Result('C07/missing-return/table', BOUNDED_FAILED if bad else BOUNDED_OK, 'bounded:corpus', time.time() - t0, (), det)]
 
 
+def ob_cast_programs():
+    """casts written in source text (through the real parser): the documented targets are accepted, `empty` / `empty[]` / nested arrays are not types
+    a value can be cast to, invalid conversions are rejected"""
+    ast, DT, AT, TCE, CE, SPAN = mods()
+    from hidc.lexer import SourceCode
+    from hidc.parser import parse
+    t0 = time.time(); bad = []; n = 0
+    pre = 'empty g() { } int h() { return 1; } int[] arr = [1, 2]; string s = "ab"; byte b = 3; bool t = true;\n'
+    table = [
+        ('int x = h() is int;', True), ('byte x = h() is byte;', True), ('bool x = h() is bool;', True), ('int x = b is int;', True), ('int x = t is int;', True),
+        ('byte x = t is byte;', True), ('bool x = s is bool;', True), ('bool x = arr is bool;', True), ('const byte[] x = s is byte[];', True), ('bool x = b is bool;', True),
+        ('g() is empty;', False), ('int x = ([] is empty[]).length;', False), ('[] is empty[];', False), ('int x = h() is empty;', False), ('string x = h() is string;', False),
+        ('int x = s is int;', False), ('int[] x = s is int[];', False), ('byte[] x = s is byte[];', False), ('int x = arr is int;', False), ('int[][] x = arr is int[][];', False),
+        ('string x = b is string;', False),
+    ]
+    for body, want in table:
+        n += 1
+        src = pre + 'empty @is_you() { ' + body + ' }'
+        try:
+            parse(SourceCode.from_string(src)).evaluate(ast.Environment.empty()); got = True; why = ''
+        except CE as e:
+            got = False; why = f'{type(e).__name__}: {e}'
+        except Exception as e:
+            got = 'crash'; why = repr(e)
+        if got is not want: bad.append({'statement': body, 'accepted': got, 'documented': want, 'diagnostic': why[:120]})
+    det = {'formula': 'a cast written in the source is accepted iff README "Types" allows the conversion; `empty` is not a cast target', 'bound': f'{n} cast statements', 'count': n,
+           'functions': ['hidc.parser.grammar.ps_expr3', 'hidc.parser.grammar.ps_data_type', 'hidc.ast.operators.Is.evaluate', 'hidc.ast.expressions.Expression.cast']}
+    if bad: det.update(model=bad[:5], replay={'reproduced': True, 'how': 'real parser and typechecker on the statement', 'observed': bad[0]})
+    from hidv.oblig import BOUNDED_OK, BOUNDED_FAILED
+    return [Result('C07/casts/source-level-table', BOUNDED_FAILED if bad else BOUNDED_OK, 'bounded:corpus', time.time() - t0, (), det)]
+
+
 def tasks(tier):
     return [task(MOD, 'ob_lattice', ('C07',), label='py/types/lattice', cost=3),
             task(MOD, 'ob_statements', ('C07',), label='py/types/statements', cost=3),
             task(MOD, 'ob_overload', ('C07',), label='py/types/overload', cost=3),
             task(MOD, 'ob_overload_order', ('C07', 'C18'), label='py/types/overload-order', cost=1),
-            task(MOD, 'ob_missing_return', ('C07', 'C16'), label='py/types/missing-return', cost=1)]
+            task(MOD, 'ob_missing_return', ('C07', 'C16'), label='py/types/missing-return', cost=1),
+            task(MOD, 'ob_cast_programs', ('C07',), label='py/types/cast-programs', cost=1)]
